@@ -36,22 +36,24 @@ type Monitor struct {
 	action          string
 	seenSig         map[string]bool
 	// statements
-	stmts           map[*framework.Statement]*stmtState
-	commitSeq       int
-	activity        int
-	lastOpsText     string
-	lastSharedRenom bool
-	inCommit        *framework.Statement
-	maxFind         int
-	trace           []string
-	movedOnNode     map[string]bool
-	lastStatus      map[common_info.PodID]pod_status.PodStatus
-	seenNodes       map[common_info.PodID]map[string]bool
-	everReleasing   map[common_info.PodID]bool
-	lastKind        map[common_info.PodID]string
-	dupHandler      bool
-	initNode        map[common_info.PodID]string
-	initGroups      map[common_info.PodID][]string
+	stmts            map[*framework.Statement]*stmtState
+	commitSeq        int
+	activity         int
+	lastOpsText      string
+	lastSharedRenom  bool
+	inCommit         *framework.Statement
+	maxFind          int
+	trace            []string
+	movedOnNode      map[string]bool
+	sharedEvicted    map[string]bool // nodes on which a GPU-sharing pod was (virtually) evicted in this session
+	evictedNominated map[string]bool // nodes on which a pod that was only nominated in this session was evicted
+	lastStatus       map[common_info.PodID]pod_status.PodStatus
+	seenNodes        map[common_info.PodID]map[string]bool
+	everReleasing    map[common_info.PodID]bool
+	lastKind         map[common_info.PodID]string
+	dupHandler       bool
+	initNode         map[common_info.PodID]string
+	initGroups       map[common_info.PodID][]string
 }
 
 type stmtState struct {
@@ -125,6 +127,8 @@ func (m *Monitor) Hooks() sched.Hooks {
 			m.action = "open"
 			m.recordInitial()
 			m.movedOnNode = nil
+			m.evictedNominated = nil
+			m.sharedEvicted = nil
 			m.checkAll("after-open")
 		},
 		BeforeAction: func(ssn *framework.Session, name string) { m.action = name },
@@ -177,9 +181,27 @@ func (m *Monitor) onEvent(kind string, e *framework.Event) {
 		if t.NodeName != "" {
 			m.seenNodes[t.UID][t.NodeName] = true
 		}
+		if kind == "deallocate-event" && (t.IsSharedGPUAllocation() || len(t.GPUGroups) > 0) {
+			// a GPU-sharing pod is (virtually) evicted, or its allocation / nomination is undone
+			if m.sharedEvicted == nil {
+				m.sharedEvicted = map[string]bool{}
+			}
+			for n := range m.seenNodes[t.UID] {
+				m.sharedEvicted[n] = true
+			}
+		}
 		switch {
 		case kind == "deallocate-event" && t.Status == pod_status.Releasing:
 			m.everReleasing[t.UID] = true
+			if hadPrev && prev == pod_status.Pipelined {
+				// a pod that was only nominated (pipelined) in this session is evicted: it holds nothing, yet it is
+				// re-added as a releasing pod (Idle is charged, Releasing credited twice)
+				if m.evictedNominated == nil {
+					m.evictedNominated = map[string]bool{}
+				}
+				m.evictedNominated[t.NodeName] = true
+				m.Stats["evictions_of_nominated_pods"]++
+			}
 			if !(hadPrev && prev == pod_status.Pipelined) {
 				// a (virtual) eviction of a placed pod: this is where its releasing copy lives
 				m.initNode[t.UID] = t.NodeName
@@ -206,6 +228,12 @@ func (m *Monitor) onEvent(kind string, e *framework.Event) {
 		m.trace = append(m.trace, fmt.Sprintf("%s(%s,%v,node=%s,groups=%v)", kind[:3], e.Task.Name, e.Task.Status, e.Task.NodeName, e.Task.GPUGroups))
 		if os.Getenv("VERIF_TRACE") != "" {
 			fmt.Fprintf(os.Stderr, "TRACE [%s] %s\n", m.action, m.trace[len(m.trace)-1])
+			if nn := os.Getenv("VERIF_TRACE_NODE"); nn != "" {
+				if ni := m.ssn.ClusterInfo.Nodes[nn]; ni != nil {
+					fmt.Fprintf(os.Stderr, "      node %s idleGPU=%v releasingGPU=%v usedGPU=%v usedShared=%v releasingShared=%v allocShared=%v\n", nn,
+						ni.Idle.GPUs(), ni.Releasing.GPUs(), ni.Used.GPUs(), ni.UsedSharedGPUsMemory, ni.ReleasingSharedGPUs, ni.AllocatedSharedGPUsMemory)
+				}
+			}
 		}
 		if len(m.trace) > 12 {
 			m.trace = m.trace[len(m.trace)-12:]
@@ -268,6 +296,12 @@ func (m *Monitor) checkAll(where string) {
 		oracle := "node-accounting"
 		if f := strings.Fields(s); len(f) > 1 && m.movedOnNode[f[1]] {
 			oracle = "node-accounting-after-shared-gpu-renomination"
+		} else if len(f) > 1 && m.evictedNominated[f[1]] {
+			oracle = "node-accounting-after-eviction-of-nominated-pod"
+		} else if len(f) > 1 && m.sharedEvicted[f[1]] && strings.Contains(s, "vs rebuilt[gpu]") {
+			// the whole-GPU counters of a node drift when a GPU-sharing pod is (virtually) evicted and restored while
+			// other pods are nominated on the node (same root as the C13 finding "only-whole-gpu-counters")
+			oracle = "node-whole-gpu-counters-after-shared-gpu-deallocation"
 		}
 		m.report("C14", oracle, s)
 	}
